@@ -366,5 +366,33 @@ func checkC18(s *Scenario) (*Failure, *walkObs) {
 	if obs.Callbacks != len(want) {
 		return &Failure{Check: "history", Observed: fmt.Sprintf("%d callbacks; tail: %s", obs.Callbacks, describeHist(obs.Hist, len(obs.Hist)-1)), Expected: fmt.Sprintf("%d callbacks; tail: %s", len(want), describeHist(want, len(want)-1))}, obs
 	}
+	if obs.Aborts > 0 {
+		// sequel: a complete walk right after an aborted one must be unaffected by it
+		full := *ws
+		full.Tape, full.Reentrant = "", false
+		want2 := refWalk(v, &full)
+		var obs2 *walkObs
+		func() {
+			defer func() {
+				if r := recover(); r != nil {
+					if _, ok := r.(walkOverrun); !ok {
+						panic(r)
+					}
+				}
+			}()
+			obs2 = realWalk(v, &full, blocks, len(want2)+8, len(want2)+8)
+		}()
+		if obs2 == nil {
+			return &Failure{Check: "history", Observed: "a walk following an aborted walk made more callbacks than the reference model"}, obs
+		}
+		for i := 0; i < len(want2) && i < len(obs2.Hist); i++ {
+			if obs2.Hist[i] != want2[i] {
+				return &Failure{Check: "history", Observed: fmt.Sprintf("walk following an aborted walk: callback %d differs: %s", i, describeHist(obs2.Hist, i)), Expected: describeHist(want2, i)}, obs
+			}
+		}
+		if obs2.Callbacks != len(want2) {
+			return &Failure{Check: "history", Observed: fmt.Sprintf("walk following an aborted walk: %d callbacks", obs2.Callbacks), Expected: fmt.Sprintf("%d callbacks", len(want2))}, obs
+		}
+	}
 	return nil, obs
 }
